@@ -126,6 +126,10 @@ pub fn execute(c: &C11Cfg, ctl: &[String]) {
                 sim.crash(format!("n{}", t[1]).as_str());
                 "ok".into()
             }
+            "bounce" => {
+                sim.bounce(format!("n{}", t[1]).as_str());
+                "ok".into()
+            }
             "run" => {
                 let before = sim.elapsed();
                 let r = catch_unwind(AssertUnwindSafe(|| sim.run()));
@@ -217,10 +221,19 @@ pub fn generate(rng: &mut Rng, idx: usize) -> (C11Cfg, Vec<String>) {
         sws.swap(i, j);
     }
     ctl.extend(sws.iter().cloned());
-    if rng.chance(1, 6) {
-        // crash one of the hosts before running
+    if rng.chance(1, 4) {
+        // crash one of the hosts before running; sometimes restart it (its software starts afresh)
         if let Some(i) = sws.iter().position(|s| s.starts_with("sw host")) {
             ctl.push(format!("crash {i}"));
+            if rng.chance(1, 2) {
+                ctl.push(format!("bounce {i}"));
+            }
+        }
+    } else if rng.chance(1, 6) {
+        // bounce without a crash, after a few steps
+        if let Some(i) = sws.iter().position(|s| s.starts_with("sw host") && !s.contains("at=0 ")) {
+            ctl.push("stepn 1".into());
+            ctl.push(format!("bounce {i}"));
         }
     }
     if rng.chance(1, 3) {
